@@ -1,5 +1,5 @@
 """C07 — a saved ruleset means the same thing to every tool that loads it (round trip of every character)."""
-import os, io, json, contextlib, random
+import itertools, os, io, json, contextlib, random
 from collections import Counter
 from .. import repo, oracles, trained, trainer, monitors
 from ..evidence import h
@@ -43,6 +43,11 @@ def gen_cases(rng, tier, shard):
         # training encoding; the trainer refuses today - whatever it does, what it writes must read back under the encoding the ruleset declares
         cases.append({'cps': [0x393, 0x398, 0x3a9, 0xe9, 0xf1] + rng.sample(SPECIAL, 4), 'encoding': 'cp437', 'ngram': 2, 'coverage': 0.6})
         cases.append({'cps': [0x3a9, 0xe5] + rng.sample(SPECIAL, 4), 'encoding': 'mac_roman', 'ngram': 2, 'coverage': 1.0})
+        # a ruleset declared utf-8-sig (what chardet reports for a list saved with a byte order mark), small and with very long terminal lists
+        cases.append({'cps': rng.sample(SPECIAL, 6) + [0xfeff, 0xe9], 'encoding': 'utf-8-sig', 'ngram': 2, 'coverage': 0.6})
+        for enc in ['utf-8-sig', rng.choice(['utf-8', 'cp1251', 'latin-1'])]:
+            cases.append({'cps': [0xe9, 0x44f], 'encoding': enc, 'ngram': 2, 'coverage': 0.6, 'big_lists': rng.getrandbits(32),
+                          'n_digits': rng.choice([12000, 21000, 33000]), 'n_alpha': rng.choice([0, 10500])})
         return [c for k, c in enumerate(cases) if k % n == i]
     allc = [c for c in range(0x0, 0x10000) if not (0xd800 <= c < 0xe000)]
     astral = [rng.randrange(0x10000, 0x110000) for _ in range(4000)] if i == 0 else []
@@ -80,6 +85,13 @@ def check_case(run, case):
         pws.append(pw)
     if not pws:
         run.inconc('no encodable password in batch'); return
+    if case.get('big_lists'):
+        # terminal lists of many thousand values (a leaked list easily has 10^5 distinct six-digit strings): whatever the writer does in blocks, line 10 001
+        # (or byte 65 537) of a file reads back like line 2
+        import random as _r
+        r2 = _r.Random(case['big_lists'])
+        pws += ['%06d' % v for v in r2.sample(range(10 ** 6), case['n_digits'])]
+        pws += [''.join(t) for t in r2.sample(list(itertools.product('abcdefghijklmnop', repeat=4)), case['n_alpha'])]
     pws += ['plain1', 'word', 'word', 'pass12', 'pass12!', 'iloveyou1234567!!', 'Sunshine20011234567']            # some ordinary structure around it
     pws += ['bob@gmail.com', 'Alice@Mail.RU', 'bob@gmail.com1', 'www.google.com', 'http://www.site.net/x', 'x.org', 'x.org']     # e-mail provider / website host lists (PRINCE terminals E / W)
     data = b''.join(b'$HEX[' + p.encode(enc).hex().encode() + b']\n' for p in pws)
@@ -116,7 +128,10 @@ def check_case(run, case):
                 run.violation(f'config.ini lists {sorted(names)} for {directory}/ but the directory holds {sorted(os.listdir(os.path.join(path, directory)))}', case); return
         run.ev('disk_vs_tally')
         # 2. guesser loader
-        pcfg = monitors.load_pcfg(path, 'x')
+        try:
+            pcfg = monitors.load_pcfg(path, 'x')
+        except Exception as e:
+            run.violation(f'guesser loader raised {type(e).__name__} ({e!s:.120}) on a ruleset (encoding {enc}) the trainer has just written', case); return
         diag = pcfg._verif_load_stderr + pcfg._verif_load_stdout
         if 'Ignor' in diag or 'xception' in diag or 'weird' in diag:
             run.violation('guesser loader printed a diagnostic while loading a ruleset the trainer has just written', case, observed=diag[-400:]); return
